@@ -204,12 +204,20 @@ def sc_diagonal(V, P, cfg):
     for i in range(n):
         A[i, i] = _nz(V, "d_%d" % i, ac, default=(1.5 - i, 0.5))
     A = _fin(V, A)
+    from .catalogue import _mk_sparse
     if cfg.get("sparse"):
-        from .catalogue import _mk_sparse
         Ain = _mk_sparse(V, A)
     else:
         Ain = A
-    s = SolverDiagonal(Ain)
+    if cfg.get("prior"):       # the solver object was updated with another matrix before
+        A0 = _empty(V, (n, n), ac)
+        for i in range(n):
+            A0[i, i] = _nz(V, "e_%d" % i, ac, default=(0.75 + i, -0.25))
+        A0 = _fin(V, A0)
+        s = SolverDiagonal(_mk_sparse(V, A0) if cfg.get("sparse") else A0)
+        s.update(Ain)
+    else:
+        s = SolverDiagonal(Ain)
     return _solve_all(V, P, s, A, _xstar(V, n, xc), "diagonal", {})
 
 
@@ -221,7 +229,14 @@ def sc_lu(V, P, cfg):
     Pm = _perm_matrix(V, perm)
     A = _fin(V, Pm @ L @ U)
     _register(V, "lu", (Pm, L, U))
-    s = SolverDenseLU(A)
+    if cfg.get("prior"):
+        L0, U0 = _unit_lower(V, "K", n, ac), _upper(V, "W", n, ac)
+        A0 = _fin(V, L0 @ U0)
+        _register(V, "lu", (_perm_matrix(V, list(range(n))), L0, U0))
+        s = SolverDenseLU(A0)
+        s.update(A)
+    else:
+        s = SolverDenseLU(A)
     return _solve_all(V, P, s, A, _xstar(V, n, xc), "lu", {})
 
 
@@ -299,6 +314,13 @@ def sc_ldl(V, P, cfg):
     A = _ldl_matrix(V, lfull, D, cfg["fherm"])
     _register(V, "ldl", (lfull, D, perm))
     s = SolverDenseLDL(hermitian=cfg["hermitian"])
+    if cfg.get("prior"):
+        A0 = _empty(V, (n, n), ac)
+        for i in range(n):
+            A0[i, i] = _emb(V, V.real("e_%d" % i, nonzero=True, default=0.75 + i), ac)
+        A0 = _fin(V, A0)
+        _register(V, "ldl", (np.eye(n, dtype=int).astype(object) if V.symbolic else np.eye(n), A0, np.arange(n)))
+        s.update(A0)
     s.update(A)
     if P is not None and cfg["hermitian"] is None:
         # auto-detection: the flag the solver settled on must describe the matrix on this path
@@ -313,6 +335,28 @@ def sc_ldl(V, P, cfg):
 def sc_cholesky(V, P, cfg):
     from pymoto.solvers import SolverDenseCholesky
     n, ac, xc = cfg["n"], cfg["ac"], cfg["xc"]
+    prior = cfg.get("prior")        # the solver object has seen another matrix before (update history)
+    s = None
+    if V.symbolic:
+        from symx import factor
+    with warnings.catch_warnings():
+        warnings.simplefilter("ignore")
+        if prior == "spd":
+            U0 = _upper(V, "U0", n, ac, posdiag=True)
+            A0 = _fin(V, _conj(U0.T) @ U0)
+            _register(V, "cholesky", U0)
+            s = SolverDenseCholesky(A0)
+        elif prior == "indef":
+            l0, D0, p0 = _ldl_factors(V, dict(cfg, perm=list(range(n)), blocks=[1] * n, fherm=True), ac)
+            A0 = _ldl_matrix(V, l0, D0, True)
+            if V.symbolic:
+                d0 = D0[0, 0]
+                V.assume((d0.re if isinstance(d0, C) else d0) < 0, "prior matrix not positive definite")
+                factor.configure(cholesky_fails=True)
+            _register(V, "ldl", (l0, D0, p0))
+            s = SolverDenseCholesky(A0)
+            if V.symbolic:
+                factor.configure(cholesky_fails=False)
     if cfg["branch"] == "success":
         U = _upper(V, "U", n, ac, posdiag=True)
         A = _fin(V, _conj(U.T) @ U)
@@ -322,7 +366,6 @@ def sc_cholesky(V, P, cfg):
         lfull, D, perm = _ldl_factors(V, cfg, ac)
         A = _ldl_matrix(V, lfull, D, True)
         if V.symbolic:
-            from symx import factor
             d0 = D[0, 0]
             V.assume((d0.re if isinstance(d0, C) else d0) < 0,
                      "Cholesky fall-back items: D_00 < 0, so A is not positive definite and potrf fails")
@@ -330,10 +373,15 @@ def sc_cholesky(V, P, cfg):
         _register(V, "ldl", (lfull, D, perm))
     with warnings.catch_warnings():
         warnings.simplefilter("ignore")
-        s = SolverDenseCholesky(A)
+        if s is None:
+            s = SolverDenseCholesky(A)
+        else:
+            s.update(A)
     obs = _solve_all(V, P, s, A, _xstar(V, n, xc), "cholesky-%s" % cfg["branch"], {})
     if P is not None:
         P.holds("cholesky:branch", bool(s.success) == (cfg["branch"] == "success"), kind="cholesky:branch")
+    else:
+        obs["success_flag"] = int(bool(s.success))
     return obs
 
 
@@ -382,7 +430,11 @@ def sc_sparse_lu(V, P, cfg):
     n, ac, xc = cfg["n"], cfg["ac"], cfg["xc"]
     A = _fin(V, _general(V, "A", n, ac))
     X = _xstar(V, n, xc)
-    s = SolverSparseLU(_mk_sparse(V, A))
+    if cfg.get("prior"):
+        s = SolverSparseLU(_mk_sparse(V, _fin(V, _general(V, "A0", n, ac))))
+        s.update(_mk_sparse(V, A))
+    else:
+        s = SolverSparseLU(_mk_sparse(V, A))
     obs = {"A": A}
     for t in TRANS:
         M = _op(A, t)
@@ -1215,6 +1267,19 @@ def items(tier):
                     add("cholesky", "fallback-n%d-p%s-%s" % (n, ptag(perm), tag), n=n, ac=ac, xc=xc, branch="fallback",
                         perm=perm, fherm=True)
     add("cholesky", "fallback-n2-block-c", n=2, ac=True, xc=True, branch="fallback", perm=[0, 1], fherm=True, blocks=[2])
+    # every direct solver re-used for a second matrix (stale factors / flags of the first one must not survive)
+    for tag, ac, xc in DATA:
+        if tag == "rc":
+            continue
+        add("diagonal", "reupdate-n2-%s" % tag, n=2, ac=ac, xc=xc, prior=True)
+        add("lu", "reupdate-n2-p10-%s" % tag, n=2, perm=[1, 0], ac=ac, xc=xc, prior=True)
+        add("sparselu", "reupdate-n2-%s" % tag, n=2, ac=ac, xc=xc, prior=True)
+    # update history on one solver object: success then failure, failure then success
+    for tag, ac, xc in DATA:
+        if tag == "rc":
+            continue
+        add("cholesky", "fallback-after-success-n2-%s" % tag, n=2, ac=ac, xc=xc, branch="fallback", perm=[0, 1], fherm=True, prior="spd")
+        add("cholesky", "success-after-fallback-n2-%s" % tag, n=2, ac=ac, xc=xc, branch="success", prior="indef")
     # LDL: variant = (flag given to the solver, pre-image family)
     for n in b["ldl_n"]:
         for perm in _perms(n, tier, "ldl"):
@@ -1234,6 +1299,12 @@ def items(tier):
     # auto-detection of the flag (hermitian=None)
     for tag, ac, xc in DATA[:2]:
         add("ldl", "auto-herm-n2-%s" % tag, n=2, perm=[1, 0], ac=ac, xc=xc, hermitian=None, fherm=True, variant="auto-herm")
+        if tag != "rc":
+            # auto-detected flag after the object saw a (real diagonal: symmetric AND Hermitian) matrix first
+            add("ldl", "auto-herm-reupdate-n2-%s" % tag, n=2, perm=[1, 0], ac=ac, xc=xc, hermitian=None, fherm=True,
+                variant="auto-herm", prior=True)
+            add("ldl", "herm-reupdate-n2-%s" % tag, n=2, perm=[1, 0], ac=ac, xc=xc, hermitian=True, fherm=True,
+                variant="herm", prior=True)
         if ac:
             add("ldl", "auto-csym-n2-%s" % tag, n=2, perm=[1, 0], ac=ac, xc=xc, hermitian=None, fherm=False, variant="auto-csym")
     if not q:
@@ -1407,7 +1478,9 @@ def replay(cfg, label, env, case):
         parts = label.split("[")[0].split(":")
         if len(parts) < 3 or parts[1] not in TRANS:
             if label.startswith("cholesky:branch"):
-                return dict(reproduced=None, detail="branch bookkeeping of the harness, no numerical clause")
+                flag = obs.get("success_flag")
+                return dict(reproduced=bool(flag != int(cfg["branch"] == "success")),
+                            detail=dict(success_flag_on_real_library=flag, expected=cfg["branch"]))
             if label.startswith("ldl:auto-flag"):
                 Am = np.asarray(obs["A"], dtype=complex)
                 herm = bool(np.allclose(Am, Am.conj().T, rtol=1e-9, atol=1e-12))
